@@ -129,10 +129,25 @@ def main(argv):
     ctx = Ctx(prop, tier, seed, shard, nshards, replay=bool(replay_file))
     extra = {}
     try:
+        rep = None
         if replay_file:
             with open(replay_file) as f:
                 rep = json.load(f)
-            mod.replay(ctx, rep["witness"])
+        if rep is not None:
+            if not (isinstance(rep.get("witness"), dict) and "history_call" in rep["witness"]):
+                mod.replay(ctx, rep["witness"])
+            if not ctx.violations:
+                # a witness that only shows within the sequence of calls that produced it (call-order / history witnesses, or a pair
+                # judged while some state was stale): shard 0 of the recorded tier and seed is run again, followed by the two
+                # re-evaluation passes. On a tree where the property holds this reproduces nothing.
+                rtier = rep.get("tier", tier) if rep.get("tier") in ("quick", "thorough") else "quick"
+                ctx = Ctx(prop, rtier, int(rep.get("seed", seed)), 0, getattr(mod, "SHARDS", {"quick": 4, "thorough": 16})[rtier], replay=True)
+                ctx.notes["replay"] = "witness did not reproduce in isolation; shard 0 re-run"
+                ctx.set_budget(getattr(mod, "BUDGET", {"quick": 25, "thorough": 300})["quick"])
+                mod.run(ctx)
+                if ctx.history:
+                    inprocess_order_pass(ctx, prop)
+                    history_pass(ctx, prop, out)
         else:
             budget = getattr(mod, "BUDGET", {"quick": 25, "thorough": 300})[tier]
             if os.environ.get("VERIF_BUDGET"):
